@@ -531,10 +531,26 @@ def _p2_class(text, cursor, bad):
         # comments, `&&`, `||`)
         if LC in text:
             return "no-token-before-line-continuation"
-    if clause == "command-prefix":
-        if text[cursor - 1 : cursor + 1] == LC and analyse(text, cursor + 1) is None and analyse(text, cursor - 1) is None:
+    if clause in ("command-prefix", "command-suffix") and cursor >= 1 and text[cursor - 1 : cursor + 1] == LC:
+        # process_string_segment only discounts continuations wholly before the cursor, so a cursor
+        # between the backslash and the newline is placed two characters too far to the right
+        if analyse(text, cursor + 1) is None and analyse(text, cursor - 1) is None:
             return "cursor-inside-line-continuation"
+    if clause == "command-prefix" and LC in text[:cursor]:
+        # cursor strictly inside a sub-expression opener (`$(`, `![`, `@$(` ...) glued to a word that
+        # contains an elided continuation: handle_command_arg falls back to `cursor - span.start`,
+        # which ignores the elision.  Repair transform: without the continuations the case passes.
+        inside_opener = any(
+            text[cursor - k : cursor - k + len(o)] == o for o in _OPENERS for k in range(1, len(o)) if cursor - k >= 0
+        )
+        if inside_opener:
+            n = text[:cursor].count(LC)
+            if analyse(text[:cursor].replace(LC, "") + text[cursor:], cursor - len(LC) * n) is None:
+                return "cursor-inside-subexpr-opener-after-line-continuation"
     return None
+
+
+_OPENERS = ("$(", "$[", "${", "!(", "![", "@(", "@!(", "@$(")
 
 
 def check_stem(item):
